@@ -29,7 +29,14 @@ func VerifH_serveHTTP_clientstream() {
 	if jsonFraming {
 		framing = CodecJSON{}
 	}
-	mux, err := NewMux(FilesOption(vfRegistry(svc)), CodecOption("application/x", fakeStreamCodec{rec, framing}))
+	// a user-supplied codec need not be a StreamCodec: a streaming call under its content type is
+	// then an error, not a crash (C09)
+	plainCodec := vfBool()
+	var codec Codec = fakeStreamCodec{rec, framing}
+	if plainCodec {
+		codec = rec
+	}
+	mux, err := NewMux(FilesOption(vfRegistry(svc)), CodecOption("application/x", codec))
 	if err != nil {
 		vfFail("NewMux failed")
 	}
@@ -72,6 +79,11 @@ func VerifH_serveHTTP_clientstream() {
 	}
 	w := newFakeRW()
 	mux.ServeHTTP(w, r)
+	if plainCodec {
+		vfCheck(w.committed && len(srv.got) == 0, "a streaming call under a codec without stream framing delivered messages")
+		vfCover("codec-without-streaming")
+		return
+	}
 	vfCheck(w.committed && w.status == 200, "a well-formed client-streaming upload was not answered 200")
 	vfCheck(srv.calls == 1, "stream handler not invoked exactly once")
 	vfCheck(len(srv.got) == k, "the handler did not receive exactly the client's messages")
@@ -97,7 +109,12 @@ func VerifH_serveHTTP_serverstream() {
 	md := &fakeMethod{full: "vf.S.Dn", in: in, out: out, ss: true, opts: &fakeOpts{rule: rule}}
 	svc := &fakeSvc{full: "vf.S", methods: &fakeMethodList{list: []*fakeMethod{md}}}
 	rec := &fakeCodec{name: "fake"}
-	mux, err := NewMux(FilesOption(vfRegistry(svc)), CodecOption("application/x", fakeStreamCodec{rec, CodecProto{}}))
+	plainCodec := vfBool() // a codec without stream framing: the call fails, the server does not crash
+	var codec Codec = fakeStreamCodec{rec, CodecProto{}}
+	if plainCodec {
+		codec = rec
+	}
+	mux, err := NewMux(FilesOption(vfRegistry(svc)), CodecOption("application/x", codec))
 	if err != nil {
 		vfFail("NewMux failed")
 	}
@@ -121,6 +138,11 @@ func VerifH_serveHTTP_serverstream() {
 	w := newFakeRW()
 	mux.ServeHTTP(w, r)
 	w.finish()
+	if plainCodec {
+		vfCheck(w.committed, "no response was produced")
+		vfCover("codec-without-streaming")
+		return
+	}
 	vfCheck(srv.calls == 1, "stream handler not invoked exactly once")
 	vfCheck(len(srv.got) == 1, "the handler of a server-streaming call did not receive exactly one request message")
 	vfCheck(w.status == 200, "a successful server-streaming call was not answered 200")
